@@ -90,6 +90,10 @@ structure World (c : Codec) where
   `_exception` after a normal wake-up (data / eof / chunk end) and raises it; `false` = the code
   before that repair, where a resumed reader never looks at `_exception` again -/
   waitRechecks : Bool := false
+  /-- behaviour flag (probed, `Gen.C09.waitChecksExceptionAtEntry`): `StreamReader._wait()` raises a
+  recorded `_exception` BEFORE parking; `false` = the code before that repair, where a reader whose
+  own read made the parser fail parks on a fresh waiter with the error recorded -/
+  waitEntryCheck : Bool := false
   -- transport and protocol
   trPaused : Bool := false       -- transport.pause_reading() in effect
   connected : Bool := true       -- protocol.transport is not None
@@ -158,8 +162,9 @@ def bsize (buf : List Bytes) : Nat := (buf.map List.length).sum
 
 /-- `World` for a reader created with `limit` (StreamReader.__init__) -/
 def World.init (c : Codec) (limit : Nat) (framing : Framing) (length : Nat) (compressed sniff checkEof lax : Bool)
-    (maxTrailers : Nat := 128) (clearOnNeeds : Bool := false) (waitRechecks : Bool := false) : World c :=
-  { clearOnNeeds := clearOnNeeds, waitRechecks := waitRechecks, limit := limit, framing := framing, length := length, compressed := compressed, sniff := sniff,
+    (maxTrailers : Nat := 128) (clearOnNeeds : Bool := false) (waitRechecks : Bool := false)
+    (waitEntryCheck : Bool := false) : World c :=
+  { clearOnNeeds := clearOnNeeds, waitRechecks := waitRechecks, waitEntryCheck := waitEntryCheck, limit := limit, framing := framing, length := length, compressed := compressed, sniff := sniff,
     checkEof := checkEof, lax := lax, maxTrailers := maxTrailers,
     low := limit, high := limit * 2, highChunks := max 4 (limit / 16), lowChunks := max 4 (limit / 16) / 2 }
 
@@ -528,8 +533,10 @@ def reqLoop (cms : Nat) : Nat → World c → World c × Out
     -- `readany()` checks `_exception` on entry only; a coroutine resumed from `_wait` does not
     if !w.reqParked && w.exc.isSome then (w, .err (w.exc.getD .assertion))
     else if w.buf.isEmpty && !w.eof then
-      -- `await self._wait()`: RuntimeError when the connection is gone, else park on a new waiter
-      if w.connected then ({ w with reqParked := true, waiter := true, wakeExc := none }, .blocked)
+      -- `await self._wait()`: (repaired) a recorded exception is raised first; RuntimeError when the
+      -- connection is gone; else park on a new waiter
+      if w.waitEntryCheck && w.exc.isSome then ({ w with reqParked := false }, .err (w.exc.getD .assertion))
+      else if w.connected then ({ w with reqParked := true, waiter := true, wakeExc := none }, .blocked)
       else ({ w with reqParked := false }, .err .connClosed)
     else
       let w := { w with reqParked := false, outb := [] }
@@ -576,7 +583,9 @@ def resumeGate (w : World c) : Option (World c × Out) :=
 
 /-- `await self._wait()`: RuntimeError when the connection is gone, else park on a new waiter -/
 def parkOrFail (w : World c) : World c × Out :=
-  if w.connected then ({ w with reqParked := true, waiter := true, wakeExc := none }, .blocked)
+  -- repaired `_wait`: `if self._exception is not None: raise self._exception` comes first
+  if w.waitEntryCheck && w.exc.isSome then ({ w with reqParked := false, lineAcc := [] }, .err (w.exc.getD .assertion))
+  else if w.connected then ({ w with reqParked := true, waiter := true, wakeExc := none }, .blocked)
   else ({ w with reqParked := false, lineAcc := [] }, .err .connClosed)
 
 /-- `await payload.read(n)` (`some n`, n > 0) / `await payload.readany()` (`none`), coroutine kept:
